@@ -17,9 +17,12 @@ NPROC = os.cpu_count() or 8
 
 
 class RunGroup:
-    def __init__(self, tier: str, seed: int, name="run"):
+    def __init__(self, tier: str, seed: int, name="run", planner=None):
         self.tier = tier
         self.seed = seed
+        self.name = name
+        self.planner = planner
+        self._plan = None
         self.root = os.path.join(WORK, "%s-%s" % (name, tier))
         self.cases = {}      # id -> Case (built)
         self.dropped = {}    # id -> [error dict]  (did not compile)
@@ -29,6 +32,11 @@ class RunGroup:
 
     # -- corpus ------------------------------------------------------------------------
     def plan(self):
+        if self._plan is None:
+            self._plan = self.planner(self.tier, self.seed) if self.planner else self._default_plan()
+        return self._plan
+
+    def _default_plan(self):
         fixed, large, rand = corpus.run_corpus(self.tier, self.seed)
         per = 40 if self.tier == "quick" else 110
         crates = corpus.split_crates("cfix", fixed, per)
@@ -87,7 +95,7 @@ class RunGroup:
     # -- isolated confirmation of a dropped case -----------------------------------------
     def confirm_alone(self, case, hooks=True):
         """build the case in a crate of its own; -> (compiles?, errors)"""
-        iso = os.path.join(WORK, "iso-%s-%06d" % (self.tier, case.id))
+        iso = os.path.join(WORK, "iso-%s-%s-%06d" % (self.name, self.tier, case.id))
         shutil.rmtree(iso, ignore_errors=True)
         try:
             emit.emit_workspace(iso, ["one"])
